@@ -730,6 +730,16 @@ func (c *Core) remountSecretsEngine(ctx context.Context, src, dst namespace.Moun
 		c.mountsLock.Unlock()
 		return err
 	}
+
+	if src.Namespace.ID != dst.Namespace.ID {
+		// The running backend was handed the storage view of its old
+		// namespace at setup and may have kept it; re-create the backend on
+		// the view of the new location.
+		if err := c.reloadBackendCommon(ctx, mountEntry, false); err != nil {
+			c.mountsLock.Unlock()
+			return err
+		}
+	}
 	c.mountsLock.Unlock()
 
 	// Un-taint the path
